@@ -240,7 +240,11 @@ func Run(c *mc.Ctx, cfg *Config, opts schedh.Opts) *Obs {
 			}
 		}
 		sr := sourcerunner.New(sourcerunner.NewParams{Host: "h", UserHandler: handler{}, Job: j, Clock: clocks.NewFrozenClock(),
-			OperatorFactory:     func(senderID string, node *jobpb.NodeIdentity) proto.Operator { var i int; fmt.Sscanf(node.Id, "op%d", &i); return ops[i] },
+			OperatorFactory: func(senderID string, node *jobpb.NodeIdentity) proto.Operator {
+				var i int
+				fmt.Sscanf(node.Id, "op%d", &i)
+				return ops[i]
+			},
 			SourceReaderFactory: func(*jobconfigpb.Source) connectors.SourceReader { return rd },
 			EventBatching:       cfg.Batching})
 		sr.ID = "sr0"
